@@ -165,6 +165,11 @@ func AbstractFloatArith(on bool) {}
 // arbitrary (value, ok|error) pair under gosym (strconv itself is trusted).
 func OpaqueParseFloat(on bool) {}
 
+// SplitDiv makes gosym decide a quotient of non-negative operands with a
+// symbolic divisor by case split (q = k iff k*y <= x < (k+1)*y, linear) for
+// k up to a cap, instead of the non-linear div term.
+func SplitDiv(on bool) {}
+
 // LoopBound is the unwinding bound for loops whose exit test is symbolic:
 // under gosym a path on which one branch instruction is decided
 // symbolically more than k times is cut and counted as outside the claim.
